@@ -136,6 +136,21 @@ func TestC01_Hasher(t *testing.T) {
 			hs := []hash.Hasher{hash.NewSHA2_256(), hash.NewSHA2_384(), hash.NewSHA3_256(), hash.NewSHA3_384(), hash.NewKeccak_256()}
 			h = hs[g.Pick("std", len(hs))]
 		}
+		// the documented hasher errors carry no condition on the signature argument: a second fault does not change them
+		switch g.Int("signatureWithBadHasher", 0, 5) {
+		case 1:
+			sig = nil
+			g.Class("badHasher+nilSignature")
+		case 2:
+			sig = sig[:g.Int("sigLen", 0, 47)]
+			g.Class("badHasher+shortSignature")
+		case 3:
+			sig = append(append([]byte{}, sig...), 0)
+			g.Class("badHasher+longSignature")
+		case 4:
+			sig = crypto.BLSInvalidSignature()
+			g.Class("badHasher+malformedSignature")
+		}
 		s, err := k.sk.Sign(msg, h)
 		ok, verr := k.pk.Verify(sig, msg, h)
 		if kind == 0 {
